@@ -16,6 +16,9 @@ use crate::board::Board;
 /// When set, `before_probe` empties the transposition table.
 pub static CACHE_OFF: AtomicBool = AtomicBool::new(false);
 
+/// When set (and a recorder is installed), `down`/`up` events around every child search are recorded.
+pub static STEPS: AtomicBool = AtomicBool::new(false);
+
 /// Recorded events (one JSON object per entry), when a recorder is installed.
 static EVENTS: Mutex<Option<Vec<String>>> = Mutex::new(None);
 
@@ -94,7 +97,7 @@ pub fn step(kind: &str, body: String) {
 
 /// A move has been made on the search board (the child at `ply` is entered next).
 pub fn down(mv: String, ply: u16) {
-    if !recording() {
+    if !STEPS.load(Ordering::Relaxed) || !recording() {
         return;
     }
     emit(format!("{{\"ev\":\"down\",\"mv\":\"{mv}\",\"ply\":{ply}}}"));
@@ -103,7 +106,7 @@ pub fn down(mv: String, ply: u16) {
 /// A child search has returned: `kind` of call, the caller's window and remaining depth at the
 /// call, and the child's value as the caller sees it (already negated).
 pub fn up(kind: &str, alpha: i16, beta: i16, depth: u8, score: i16, ply: u8) {
-    if !recording() {
+    if !STEPS.load(Ordering::Relaxed) || !recording() {
         return;
     }
     emit(format!(
